@@ -102,6 +102,11 @@ STR_EXPRS = [
     ("STR$+HEX$", ("bin", "+", F("STR$", n(1)), F("HEX$", n(2)))),
     ("INKEY$+INKEY$", ("bin", "+", F("INKEY$"), F("INKEY$"))),
     ("STR$(BUTTON)+STR$(BUTTON)", ("bin", "+", F("STR$", F("BUTTON", n(0))), F("STR$", F("BUTTON", n(1))))),
+    # forms of Color BASIC that the tool refuses today (MID$ without a length, INSTR without a start): dropped as refused
+    # now; if a change starts to accept them, the calls inside still run once each, in order
+    ("MID$2(STR$(JOYSTK))", F("MID$", F("STR$", F("JOYSTK", n(0))), n(2))),
+    ("MID$2(INKEY$+HEX$,INT)", F("MID$", ("bin", "+", F("INKEY$"), F("HEX$", n(255))), F("INT", n(2)))),
+    ("STR$(INSTR2(STR$,STR$))", F("STR$", F("INSTR", F("STR$", n(12)), F("STR$", F("BUTTON", n(0)))))),
     ("12xINKEY$", _sum([F("INKEY$") for _ in range(12)])),
     ("11xHEX$", _sum([F("HEX$", n(k + 10)) for k in range(11)])),
 ]
@@ -116,7 +121,7 @@ NUM_CARRIERS = ["sub_both", "sub_both2", "assign", "assign_elem", "sub_rhs", "su
                 "dev_hcircle", "dev_poke", "read_sub", "input_sub", "loop_body", "jump_target", "two_statements", "width",
                 "assign_raw", "assign_elem_raw", "print_raw", "print_item_raw", "print_at_raw", "print_last_raw", "print_many",
                 "varptr_sub", "varptr_sub2", "if_nested_false", "if_nested_true", "if_nested_deep",
-                "for_limit_step", "for_all_three", "poke_fast", "poke_slow", "poke_fast_hex", "assign_self", "assign_self_elem", "if_rem_then", "if_rem_then2"]
+                "for_limit_step", "for_all_three", "poke_fast", "poke_slow", "poke_fast_hex", "assign_self", "assign_self_elem", "if_rem_then", "if_rem_then2", "self_bare"]
 STR_CARRIERS = ["assign_s", "assign_elem_s", "print_item_s", "print_at_item_s", "if_s_noelse", "if_s_else", "dev_hprint",
                 "dev_hdraw", "loop_body_s", "len_assign", "assign_self_s", "if_rem_then_s"]
 
@@ -180,6 +185,12 @@ def carrier(name, e):
     if name == "if_nested_deep":
         return one([("let", R, n(2), False), ("if", ("bin", ">", A, n(0)), ("stmts", [("if", ("bin", "<", B, n(0)), ("stmts", [
             ("if", ("bin", ">", e, n(1)), ("stmts", [("let", R, n(1), False)]), [], None)]), [], None)]), [], None)])
+    if name == "self_bare":
+        # the result variable is the call's own bare operand (one storage for argument and result inside the procedure),
+        # negative with a fraction; the expression under test rides along in a second statement
+        y3 = ("arr", "Y", [n(3)])
+        return one([("let", B, ("un", "-", ("num", 2.5, ["2.5"])), False), ("let", B, F("INT", B), False),
+                    ("let", y3, ("un", "-", ("num", 0.25, [".25"])), False), ("let", y3, F("INT", y3), False), ("let", R, ("bin", "+", e, B), False)])
     if name == "if_rem_then":
         # the THEN part holds nothing but a remark: the condition is evaluated all the same (INKEY$ is read, BUTTON polled)
         return [(30, [("if", ("bin", ">", e, n(1)), ("stmts", [("rem", " DISCARD", "'")]), [], None)]), (40, [("let", R, n(1), False)])]
